@@ -8,7 +8,8 @@ package proxy
 // manager) into the H-PROXY listener, alone and in chains with each other and
 // with scripted filters; and the filter-manager API paths the first unit's
 // scripted filters do not use (SendHijackReplyWithBody, TerminateStream called
-// from a receive filter, Get/Set of request and response parts, the send filter
+// from a receive filter and from another goroutine, the receiver handler's
+// Append* methods, Get/Set of request and response parts, the send filter
 // replacing the response, GetFilterCurrentPhase, per-stream access log).
 //
 // What a built-in filter must decide is NOT taken from its code: a small
@@ -106,12 +107,18 @@ type c14bAccess struct {
 	Flags string
 }
 
+type c14bAsync struct {
+	Idx, Req int
+	OK       bool
+}
+
 var c14bCur struct {
 	cs      *c14bCase
 	run     *hpRun
 	created int
 	calls   []c14bCall
 	access  []c14bAccess
+	async   []c14bAsync
 	errs    []string
 }
 
@@ -238,6 +245,14 @@ func (f *c14bFilter) OnReceive(ctx context.Context, headers api.HeaderMap, buf a
 		if f.spec.Verdict == "tstream" {
 			ret = api.StreamFilterStop
 		}
+	case "tstream-async":
+		// the documented use of TerminateStream: the filter lets the request pass and another goroutine terminates it
+		// at any later time
+		idx, req, rh := f.idx, f.req, f.rh
+		vrt.GoNamed("filter-terminator", func() {
+			ok := rh.TerminateStream(c14bScriptedCode)
+			c14bCur.async = append(c14bCur.async, c14bAsync{Idx: idx, Req: req, OK: ok})
+		})
 	case "append":
 		// the receive filter writes the response itself through the handler's Append* methods (the stream ends there)
 		resp := bolt.NewRpcResponse(0, bolt.ResponseStatusError, hpHeader(map[string]string{"token": fmt.Sprintf("appended-by-%d", f.idx)}), nil)
@@ -337,7 +352,7 @@ func c14bInstall(cs *c14bCase) func() {
 	c14bRegister()
 	hpFilterHook = func(sc *hpScenario, h *hpRun) {
 		c14bCur.cs, c14bCur.run, c14bCur.created = cs, h, 0
-		c14bCur.calls, c14bCur.access, c14bCur.errs = nil, nil, nil
+		c14bCur.calls, c14bCur.access, c14bCur.errs, c14bCur.async = nil, nil, nil, nil
 		// JSON text -> []v2.Filter -> stream filter manager -> api.CreateStreamFilterChainFactory(type, config)
 		var cfg []v2.Filter
 		if err := stdjson.Unmarshal(c14bFilterConfigs(cs), &cfg); err != nil {
@@ -571,6 +586,7 @@ type c14bExp struct {
 	BodyLen     int   // body length the upstream must see if forwarded
 	Modified    bool
 	Bypass      bool // the answer is written by a receive filter itself
+	Async       bool // a reached filter hands the request to a goroutine that calls TerminateStream at any time
 }
 
 func c14bExpect(cs *c14bCase, k int) c14bExp {
@@ -621,6 +637,8 @@ func c14bExpect(cs *c14bCase, k int) c14bExp {
 					exp.Answers = append(exp.Answers, c14bAnswer{Idx: i, Wire: bolt.ResponseStatusServerThreadpoolBusy, Body: "direct-by-filter", Token: "direct-by-filter", Class: "scripted direct", Direct: true})
 					answered = true
 					break pass
+				case "tstream-async":
+					exp.Async = true
 				case "append":
 					exp.Answers = append(exp.Answers, c14bAnswer{Idx: i, Wire: bolt.ResponseStatusError, Body: fmt.Sprintf("appended-by-%d", i), Token: fmt.Sprintf("appended-by-%d", i), Class: "scripted append", Direct: true, Bypass: true})
 					exp.Bypass = true
@@ -843,6 +861,29 @@ func c14bCheckReq(cs *c14bCase, k int, obs *hpObs, allCalls []c14bCall, access [
 		return true
 	}
 
+	if exp.Async && exp.Unspecified == "" && !exp.Terminated && !disconnect {
+		// TerminateStream from another goroutine races with everything else. Whoever wins, the statement's
+		// consequences hold: at most one forward, exactly one response, which passed the send filters once.
+		won := false
+		for _, a := range c14bCur.async {
+			if a.Req == k && a.OK {
+				won = true
+			}
+		}
+		if attempts > 1 {
+			report("request forwarded upstream more than once", fmt.Sprintf("%d upstream request frames; filters: %s", attempts, logStr))
+		}
+		if len(down) != 1 {
+			report("asynchronous TerminateStream: the client did not get exactly one response", fmt.Sprintf("%d responses, TerminateStream success=%v, %d upstream request frames; filters: %s; log=%v", len(down), won, attempts, logStr, obs.Log))
+			return
+		}
+		checkSend()
+		// (which reply wins when the termination races with an upstream reset or a timeout is not fixed by the
+		// statement - observed: TerminateStream reports success and the upstream-reset reply overrides it - so the
+		// status is recorded in the outcome, not compared)
+		_ = won
+		return
+	}
 	if exp.Unspecified != "" {
 		// the reference models leave the decision open (stated reason): whatever was decided, the
 		// consequences must be consistent
@@ -1508,10 +1549,38 @@ func c14bScenarios() []c14bCase {
 			out = append(out, cs)
 		}
 	}
+	add("async", false, c14bAsyncScenarios(full))
 	add("alone", true, c14bAlone(full))
 	add("api", true, c14bAPI(full))
 	add("two", false, c14bTwo(full))
 	add("chains", true, c14bChains(full))
+	return out
+}
+
+// asynchronous TerminateStream: the filter sits in each phase, alone, behind / before an allowing built-in filter,
+// with send filters; the upstream replies, closes or stays silent
+func c14bAsyncScenarios(full bool) []c14bCase {
+	var out []c14bCase
+	for _, ph := range []string{"before-route", "after-route", "after-choose-host"} {
+		a := c14bScr(ph, "tstream-async")
+		chains := [][]c14bElem{
+			{a},
+			{a, c14bScr("send", "continue")},
+			{c14bPayload("both", 10, 404), a},
+			{a, c14bFaultConfigs[3], c14bScr("send", "continue")},
+		}
+		if full {
+			chains = append(chains, []c14bElem{a, c14bScr(ph, "continue"), c14bScr("send", "stop")}, []c14bElem{c14bIPConfigs[4], a, c14bScr("send", "replace")})
+		}
+		for _, ch := range chains {
+			for _, up := range c14bUps {
+				cs := c14bMk(ch, c14bReq1(true, up, nil))
+				cs.Src = "10.1.2.5:4000"
+				cs.Name = c14bName(&cs)
+				out = append(out, cs)
+			}
+		}
+	}
 	return out
 }
 
@@ -1560,6 +1629,9 @@ func c14bRun(p *vreport.Part, cs c14bCase, replay bool) bool {
 		var acc []string
 		for _, a := range access {
 			acc = append(acc, fmt.Sprintf("r%d:%d:%s", a.Req, a.Code, a.Flags))
+		}
+		for _, a := range c14bCur.async {
+			acc = append(acc, fmt.Sprintf("terminate-async:r%d:%v", a.Req, a.OK))
 		}
 		p.Distinct(cs.Name + "|" + c14bCallsStr(calls) + "|" + strings.Join(down, ","))
 		for k := range cs.Sc.Requests {
@@ -1678,6 +1750,6 @@ func TestVerifXC14Builtin(t *testing.T) {
 	}
 	p.Note("scenarios", n)
 	p.Note("scenarios_total", len(scs))
-	p.End(complete, fmt.Sprintf("%d of %d scenarios (this shard): built-in filters alone (fault_inject %d configurations x headers, ip_access %d configurations x %d sources + header-carried address, payload_limit 2 key spellings x 5 limits x 3 statuses x body/no body, route-level overrides), chains of 2-3 of {fault_inject, ip_access, payload_limit, one scripted filter} in every order, scripted API verdicts (hijack with body, TerminateStream, receiver-side Append*, SetRequestData, send-side replacement), two requests in flight; upstream {reply, close, silent}; all schedules with <=%d deviation (thorough: <=2 where every request is denied or terminated)", n, len(scs), len(c14bFaultConfigs), len(c14bIPConfigs), len(c14bSources), bound),
+	p.End(complete, fmt.Sprintf("%d of %d scenarios (this shard): built-in filters alone (fault_inject %d configurations x headers, ip_access %d configurations x %d sources + header-carried address, payload_limit 2 key spellings x 5 limits x 3 statuses x body/no body, route-level overrides), chains of 2-3 of {fault_inject, ip_access, payload_limit, one scripted filter} in every order, scripted API verdicts (hijack with body, TerminateStream from the filter and from another goroutine, receiver-side Append*, SetRequestData, send-side replacement), two requests in flight; upstream {reply, close, silent}; all schedules with <=%d deviation (thorough: <=2 where every request is denied or terminated)", n, len(scs), len(c14bFaultConfigs), len(c14bIPConfigs), len(c14bSources), bound),
 		"every chain is configured as JSON through the stream-filter manager (real factories) and run on the real proxy; the decision of each built-in filter is predicted by a reference model written from its configuration semantics; upstream bytes, downstream frames, scripted filters' call log and the per-stream access log are compared with the statement; distinct = distinct (scenario, call log, downstream frames)")
 }
